@@ -35,7 +35,8 @@ func main() {
 		return
 	}
 	if *fast {
-		swap.VerifSetTiming(true, 4*time.Millisecond, 200*time.Microsecond, time.Hour)
+		// the claim-payment retry loop gets an unbounded time budget; the simulated chain ends it after 12 attempts (chain.go)
+		swap.VerifSetTiming(true, time.Hour, 100*time.Microsecond, time.Hour)
 	}
 	f, err := os.Open(*in)
 	if err != nil {
